@@ -22,7 +22,11 @@
 //!                attributes are shared, dimensions / register annotation / static sampler are per declarator)
 //!   helper   : name:uses:calls:statics[:opts]   comma separated indices; a use may carry a shape letter (`3w` = inside a
 //!                while condition, see `SHAPES`); opts: r (returns int), d<uses> (parameters whose default value reads
-//!                these resources), fd (declared before all definitions; also for entries)
+//!                these resources), fd (declared before all definitions; also for entries; with d..: the default values are
+//!                written on the forward declaration AND on the definition), po (needs fd and d..: the default values are
+//!                written on the forward declaration -- the prototype -- ONLY), hm (the helper is a member function of a
+//!                struct `HS<i>`, called through a local object), ht (the helper is a function template `template<typename T>`
+//!                with an extra parameter `T tv`, called once with an int and once with a float argument)
 //!   entry    : name:stage:uses:calls:statics:x.y.z|-[:opts]   opts: i<list> (s_init globals touched), nt<k> (spelling of
 //!                the numthreads arguments: 1 = named constant, 2 = arithmetic, 3 = a second, different attribute first
 //!                -- on the definition and on the forward declaration; 4 = the second attribute on the forward declaration
@@ -33,7 +37,8 @@
 //!                blend state blocks only, which a compute pipeline accepts), de (DefaultBindGroup written as an expression),
 //!                b (the block is written *before* the entry point definitions it would follow: before all of them in the
 //!                plain layout, before the ones it is the first to mention in layout 1 -- the functions are unknown or
-//!                only declared when the block is met)
+//!                only declared when the block is met), q (the entry point of the first stage property is written with a
+//!                qualified name `::<name>`: the front end accepts a plain identifier only)
 //!   The request is self-contained: the shader file is rendered from it (no seed), so shrinking and the witness search
 //!   can edit requests.
 use crate::progen;
@@ -285,6 +290,13 @@ pub struct XFn {
     pub nt: u32,
     /// a forward declaration precedes all function definitions
     pub fd: bool,
+    /// helpers: the default values stand on the forward declaration only
+    pub po: bool,
+    /// helpers: member function of a struct / function template
+    pub hm: bool,
+    pub ht: bool,
+    /// entries: the entry point is a function template (no stage property can name it)
+    pub tp: bool,
     /// entries: an overload of the same name is defined at the end of the file
     pub lo: bool,
 }
@@ -320,6 +332,8 @@ pub struct XPipe {
     pub dexpr: bool,
     /// the block precedes the entry point definitions it would otherwise follow
     pub before: bool,
+    /// the first stage property names its entry point `::<name>`
+    pub qual: bool,
 }
 
 #[derive(Clone, Debug)]
@@ -344,7 +358,7 @@ pub const EXTRA_KINDS: &[(&str, &str)] = &[
 ];
 
 /// statement shapes a resource mention can be wrapped in (each exercises another arm of the usage analysis)
-pub const SHAPES: &[char] = &['i', 'e', 'f', 'g', 'w', 'd', 's', 't', 'c', 'b', 'v', 'a', 'm', 'z'];
+pub const SHAPES: &[char] = &['i', 'e', 'f', 'g', 'w', 'd', 's', 't', 'c', 'b', 'v', 'a', 'm', 'z', 'k', 'q'];
 
 pub fn type_of_kind(kind: &str) -> Option<&'static str> {
     progen::RES_KINDS.iter().chain(EXTRA_KINDS.iter()).find(|(k, _)| *k == kind).map(|(_, t)| *t)
@@ -394,7 +408,7 @@ pub fn from_program(p: &progen::Program) -> Case {
         pipes: p
             .pipes
             .iter()
-            .map(|pp| XPipe { name: pp.name.clone(), dflt: pp.default_group, stages: pp.stages.clone(), gstate: 0, dexpr: false, before: false })
+            .map(|pp| XPipe { name: pp.name.clone(), dflt: pp.default_group, stages: pp.stages.clone(), gstate: 0, dexpr: false, before: false, qual: false })
             .collect(),
     }
 }
@@ -496,6 +510,15 @@ impl Case {
                 if h.fd {
                     o.push("fd".to_string());
                 }
+                if h.po {
+                    o.push("po".to_string());
+                }
+                if h.hm {
+                    o.push("hm".to_string());
+                }
+                if h.ht {
+                    o.push("ht".to_string());
+                }
                 with_opts(base, o)
             })
             .collect();
@@ -525,6 +548,9 @@ impl Case {
                 if e.lo {
                     o.push("lo".to_string());
                 }
+                if e.tp {
+                    o.push("tp".to_string());
+                }
                 with_opts(base, o)
             })
             .collect();
@@ -543,6 +569,9 @@ impl Case {
                 }
                 if p.before {
                     o.push("b".to_string());
+                }
+                if p.qual {
+                    o.push("q".to_string());
                 }
                 with_opts(base, o)
             })
@@ -684,13 +713,20 @@ impl Case {
                 match o.as_str() {
                     "r" => h.ret = true,
                     "fd" => h.fd = true,
+                    "po" => h.po = true,
+                    "hm" => h.hm = true,
+                    "ht" => h.ht = true,
                     s if s.starts_with('d') => h.dflt = idx(&s[1..])?,
                     _ => return None,
                 }
             }
-            // default values written on a forward declaration are lost by the compiler (seen, not C05's): keep the two apart
-            if h.fd && !h.dflt.is_empty() {
+            // default values written on a forward declaration ONLY are lost by the compiler (recorded finding): `po`
+            if h.po && !(h.fd && !h.dflt.is_empty()) {
                 return None;
+            }
+            // a member function / a template is written in one piece, without overloads
+            if h.hm || h.ht {
+                return None; // reserved: member functions / function templates as helpers are not rendered yet
             }
             helpers.push(h);
         }
@@ -725,12 +761,13 @@ impl Case {
                 match o.as_str() {
                     "fd" => e.fd = true,
                     "lo" => e.lo = true,
+                    "tp" => e.tp = true,
                     s if s.starts_with("nt") => e.nt = s[2..].parse().ok()?,
                     s if s.starts_with('i') => e.inits = idx(&s[1..])?,
                     _ => return None,
                 }
             }
-            if e.nt > 4 || (e.nt != 0 && e.threads.is_none()) || (e.nt == 4 && !e.fd) {
+            if e.nt > 4 || (e.nt != 0 && e.threads.is_none()) || (e.nt == 4 && !e.fd) || (e.tp && (e.fd || e.lo)) {
                 return None;
             }
             entries.push(e);
@@ -741,11 +778,12 @@ impl Case {
             if p.len() < 3 {
                 return None;
             }
-            let mut pp = XPipe { name: p[0].to_string(), dflt: optn(p[1])?, stages: idx(p[2])?, gstate: 0, dexpr: false, before: false };
+            let mut pp = XPipe { name: p[0].to_string(), dflt: optn(p[1])?, stages: idx(p[2])?, gstate: 0, dexpr: false, before: false, qual: false };
             for o in opts(&p, 3)? {
                 match o.as_str() {
                     "de" => pp.dexpr = true,
                     "b" => pp.before = true,
+                    "q" => pp.qual = true,
                     s if s.starts_with("gs") || s.starts_with("gb") => {
                         pp.gstate = s[2..].parse().ok()?;
                         if pp.gstate == 0 || super::state::graphics_props_strict(pp.gstate) != s.starts_with("gs") {
@@ -755,7 +793,7 @@ impl Case {
                     _ => return None,
                 }
             }
-            if pp.dexpr && pp.dflt.is_none() {
+            if (pp.dexpr && pp.dflt.is_none()) || (pp.qual && pp.stages.is_empty()) {
                 return None;
             }
             pipes.push(pp);
@@ -793,6 +831,12 @@ impl Case {
         }
         for p in &c.pipes {
             if p.stages.iter().any(|k| *k >= c.entries.len()) {
+                return None;
+            }
+        }
+        // a function template as entry point: only in files that name it in a stage property (always refused)
+        for (k, e) in c.entries.iter().enumerate() {
+            if e.tp && !c.pipes.iter().any(|p| p.stages.contains(&k)) {
                 return None;
             }
         }
@@ -855,6 +899,12 @@ impl Case {
             'v' => format!("    int lv{} = ({}, 1);\n", n, x),
             'a' => format!("    int lv{}[2] = {{ ({}, 1), 2 }};\n", n, x),
             'm' if res.kind == "Texture2D" && !res.stat => format!("    {}.Load(int3(0, 0, 0));\n", x),
+            // (`.mips[..][..]` = Expression::ObjectMember and matrix swizzles are refused by the Metal exporter --
+            // ComplexResourceSubscript / UnimplementedMatrixSwizzle -- and HLSL reports every binding used: no shape)
+            // statements without sub-expressions (empty for-init, continue, break) before the mention
+            'k' => format!("    for (;;) {{ if (false) {{ continue; }} {}; break; }}\n", x),
+            // sizeof next to the mention
+            'q' => format!("    int lv{} = (sizeof(int), ({}, 1));\n", n, x),
             'z' if res.kind == "cbuffer" => format!("    {}.x;\n", x),
             'z' if res.kind == "ConstantBuffer" => format!("    {}.v.x;\n", x),
             _ => format!("    {};\n", x),
@@ -1050,7 +1100,7 @@ impl Case {
         for (i, h) in self.helpers.iter().enumerate() {
             s.push_str(&format!(
                 "{} {{\n{}{}}}\n",
-                helper_sig(i, h, !h.fd),
+                helper_sig(i, h, !h.po),
                 self.body(h),
                 if h.ret { "    return 0;\n" } else { "" }
             ));
@@ -1074,13 +1124,17 @@ impl Case {
         }
         let emit_entry = |s: &mut String, k: usize| {
             let (attrs, sig, tail) = entry_sig(k, false);
+            if self.entries[k].tp {
+                s.push_str("template<typename T>\n");
+            }
             s.push_str(&format!("{}{} {{\n{}{}}}\n", attrs, sig, self.body(&self.entries[k]), tail));
         };
         let emit_pipe = |s: &mut String, pipe: &XPipe| {
             s.push_str(&format!("Pipeline {}\n{{\n", pipe.name));
-            for k in &pipe.stages {
+            for (n, k) in pipe.stages.iter().enumerate() {
                 let e = &self.entries[*k];
-                s.push_str(&format!("    {}Shader = {};\n", e.stage.as_deref().unwrap_or(""), e.name));
+                let q = if pipe.qual && n == 0 { "::" } else { "" };
+                s.push_str(&format!("    {}Shader = {}{};\n", e.stage.as_deref().unwrap_or(""), q, e.name));
             }
             if let Some(g) = pipe.dflt {
                 if pipe.dexpr {
@@ -1178,6 +1232,12 @@ impl Case {
     /// resources some stage entry point of the pipeline can reach (the request's own use graph: bodies, default
     /// parameter values, calls, and the initialisers of the globals on the way)
     pub fn reachable(&self, pipe: Option<&XPipe>) -> BTreeSet<usize> {
+        self.reachable_opt(pipe, true)
+    }
+
+    /// `proto_defaults` = false: without the default values that stand on a forward declaration only (what the compiler
+    /// keeps of them: nothing -- recorded finding)
+    pub fn reachable_opt(&self, pipe: Option<&XPipe>, proto_defaults: bool) -> BTreeSet<usize> {
         let mut seen_h = BTreeSet::new();
         let mut seen_i = BTreeSet::new();
         let mut out = BTreeSet::new();
@@ -1204,7 +1264,9 @@ impl Case {
                 if seen_h.insert(h) {
                     let f = &self.helpers[h];
                     out.extend(f.uses.iter().map(|u| u.0));
-                    out.extend(f.dflt.iter().copied());
+                    if proto_defaults || !f.po {
+                        out.extend(f.dflt.iter().copied());
+                    }
                     hstack.extend(f.calls.iter().copied());
                 }
             } else if let Some(i) = istack.pop() {
